@@ -152,6 +152,15 @@ def raw_dump(path, tables=TABLES):
         conn.close()
 
 
+def file_format(path):
+    """The persistent journal mode recorded in the database header (bytes 18/19: 1 = rollback journal, 2 = WAL)."""
+    try:
+        b = file_bytes(path)[:20]
+    except OSError:
+        return None
+    return {1: "rollback-journal", 2: "wal"}.get(b[18], "?") if len(b) >= 20 else None
+
+
 def logical(raw):
     """The part of a raw dump that the properties talk about (DESIGN §6.4): meta rows are
     reduced to the last dialect; sqlite internals excluded."""
